@@ -25,9 +25,8 @@ import (
 	"errors"
 	"fmt"
 	"reflect"
-	"runtime"
-	"strings"
 	"sync"
+	"sync/atomic"
 	"testing"
 	"testing/synctest"
 	"time"
@@ -102,23 +101,6 @@ func c17CallbackUnderLock(kind net.RetransmissionStrategy) bool {
 		})
 	}
 	return held
-}
-
-// c17OnTickerGoroutine reports whether the caller runs synchronously inside
-// Ticker.start (i.e. under handlersMutex).
-func c17OnTickerGoroutine() bool {
-	pcs := make([]uintptr, 32)
-	n := runtime.Callers(2, pcs)
-	frames := runtime.CallersFrames(pcs[:n])
-	for {
-		f, more := frames.Next()
-		if strings.HasSuffix(f.Function, "(*Ticker).start") {
-			return true
-		}
-		if !more {
-			return false
-		}
-	}
 }
 
 // c17Mutexes finds sync.Mutex fields (value or pointer) of a strategy value so
@@ -205,7 +187,7 @@ func c17Run(t *testing.T, r *verifsim.Run) {
 			n := s.entered
 			s.mu.Unlock()
 			if s.slow {
-				if underLock || c17OnTickerGoroutine() {
+				if underLock {
 					r.Probe("callback-under-component-lock")
 				} else {
 					s.mu.Lock()
@@ -259,6 +241,32 @@ func c17Run(t *testing.T, r *verifsim.Run) {
 			}
 		}
 		return true
+	}
+
+	// Bounded liveness of the shared ticker: at every quiescent point every
+	// offered tick has been taken and nothing holds the ticker's handler lock --
+	// in particular not a retransmit routine of one message that is still
+	// running (parked), which would stall the other messages' retransmissions,
+	// tick intake and new registrations.
+	var offered atomic.Int64
+	responsive := func(when string) bool {
+		pending := int(offered.Load())
+		if ticks != nil {
+			pending += len(ticks)
+		}
+		held := !ticker.handlersMutex.TryLock()
+		if !held {
+			ticker.handlersMutex.Unlock()
+		}
+		if pending == 0 && !held {
+			return true
+		}
+		if n := len(gates.List()); n > 0 {
+			r.Failf("C17:slow-callback-blocks-ticker", "%s: %d retransmit callback(s) still running (parked) and the shared ticker is stalled: %d offered tick(s) not taken, handler lock held=%v -- one slow retransmission blocks every other schedule on the ticker", when, n, pending, held)
+		} else {
+			r.Failf("C17:ticker-stalled", "%s: at quiescence %d offered tick(s) were not taken (handler lock held=%v) although no callback is running", when, pending, held)
+		}
+		return false
 	}
 
 	// the first schedule is registered before the first tick (benign); the
@@ -320,9 +328,15 @@ func c17Run(t *testing.T, r *verifsim.Run) {
 				time.Sleep(period * time.Duration(n))
 				r.AddSim(int64(period)*int64(n), 0)
 			} else {
-				for i := 1; i <= n; i++ {
-					ticks <- uint64(sent + i)
-				}
+				// offered from a helper goroutine: if the ticker stops taking
+				// ticks the simulator must notice it, not block with it
+				offered.Add(int64(n))
+				go func(from, n int) {
+					for i := 1; i <= n; i++ {
+						ticks <- uint64(from + i)
+						offered.Add(-1)
+					}
+				}(sent, n)
 			}
 			sent += n
 			for _, s := range live {
@@ -362,6 +376,9 @@ func c17Run(t *testing.T, r *verifsim.Run) {
 			r.Logf("cancel schedule %d after tick %d (seen %d)", s.idx, sent, s.seen)
 		}
 		synctest.Wait()
+		if !responsive(fmt.Sprintf("after step %d (tick %d)", step, sent)) {
+			return
+		}
 		if !check(fmt.Sprintf("after step %d (tick %d)", step, sent)) {
 			return
 		}
